@@ -3,7 +3,22 @@ deterministic scenarios through harness/ctl.py, oracles in harness/m1.py."""
 
 from .. import m1
 
-REQUIRED_THEOREMS = []
+REQUIRED_THEOREMS = [
+    "C01.cfgOK_of",
+    "C01.invariant_established",
+    "C01.invariant_preserved",
+    "C01.stale_callback_noop",
+    "C01.dispatch_conservation",
+    "C01.exactly_once",
+    "C01.exactly_once_at_exit",
+    "C01.return_correct",
+    "C01.return_correct_unordered",
+    "C01.no_hang",
+    "C01.waiting_means_parked",
+    "C01.initial_idle",
+    "C01.pre_dispatch_zero_counterexample",
+    "C01.auto_batch_size_ge_one",
+]
 TRUSTED_EXTRA = [
     "M1 granularity: completion callbacks are atomic and happen at hook points of the caller (configure, compute_batch_size, sleep, consumer "
     "pauses); interleavings inside a callback or between two bytecodes of the caller are not in the model",
